@@ -46,7 +46,8 @@ Proof.
     + destruct (possession_proved f); discriminate.
   - destruct (late_abort_not_tls13 _ _ _ _ _ E) as [K ->].
     destruct (server_judges mode k c) as [|a2 b2 cd2] eqn:S; cbn [client_completes]; [discriminate|].
-    rewrite (server_judges_client_done _ _ _ _ _ _ K S). discriminate.
+    pose proof (server_judges_client_done _ _ _ _ _ _ K S) as ->.
+    destruct k; try discriminate. destruct (a2 =? AlertBadCertificate); discriminate.
 Qed.
 
 (* with verification enabled a client completes only if the chain verifies to the configured
@@ -72,7 +73,8 @@ Theorem server_complete_needs_client_acceptance skip k f mode c :
   server_completes (handshake skip k f mode c) = true -> client_judges skip k f = Done.
 Proof.
   unfold handshake. destruct (client_judges skip k f) as [|a b cd]; [reflexivity|].
-  destruct b; [discriminate|]. destruct (server_judges mode k c); discriminate.
+  destruct b; [discriminate|]. destruct (server_judges mode k c) as [|a2 b2 cd2]; [discriminate|].
+  destruct k; try discriminate. destruct (a2 =? AlertBadCertificate); discriminate.
 Qed.
 
 (* a server that requires client certificates completes only with a client that presented one and
